@@ -1,4 +1,5 @@
 import Oracle.Common
+import MageModel.Gen.Emit
 import MageModel.Invoke.Mage
 import MageModel.Invoke.Paths
 /-! Oracle ops for the process-level properties (C05, C11, …): `mage.front` and `mage.child`. -/
@@ -84,7 +85,7 @@ def howClass : How → String
 
 /-- what C05 compares: status, class of output, executed calls, and whether a failure message must be on stderr
 ("any" where the property does not say: success, or a target that called os.Exit itself) -/
-def c05J (status : Int) (c : Option ChildOut) : Json :=
+def c05J (status : Int) (c : Option ChildOut) (direct : Bool := false) : Json :=
   let calls := match c with | some c => c.calls | none => []
   let how := match c with | some c => howClass c.how | none => "other"
   let selfExit := match calls.getLast? with
@@ -92,7 +93,11 @@ def c05J (status : Int) (c : Option ChildOut) : Json :=
     | none => false
   obj [("status", Json.num (JsonNumber.fromInt status)), ("how", jstr how),
        ("calls", Json.arr (calls.map fun cl => Json.arr (jstr cl.callee :: cl.args.map argJ).toArray).toArray),
-       ("stderr", jstr (if status = 0 || selfExit then "<any>" else "yes"))]
+       ("stderr", jstr (if status = 0 || selfExit then "<any>" else "yes")),
+       -- a command line the flag package rejects: the reason is on stderr (after the D30 fix), word for word
+       ("errLine", jstr (match c with
+          | some { how := .flagError e, .. } => if direct then "Error: " ++ e.message MageModel.Gen.Emit.quote else "<any>"
+          | _ => "<any>"))]
 
 def envOf (j : Json) : R Env := do pairList (← fld j "env")
 
@@ -109,7 +114,7 @@ def child (j : Json) : R Json := do
   let E ← envOf j
   let argv ← strList (← fld j "argv")
   let c := childMain info conv outcomeOf E argv
-  if (fldStr j "want").toOption == some "c05" then return c05J (osStatus c.status) (some c)
+  if (fldStr j "want").toOption == some "c05" then return c05J (osStatus c.status) (some c) true
   pure (obj (("status", Json.num (JsonNumber.fromInt (osStatus c.status))) :: childJ c))
 
 def front (j : Json) : R Json := do
@@ -194,7 +199,7 @@ def flagsParse (j : Json) : R Json := do
   let conv ← convOf j
   let argv ← strList (← fld j "argv")
   match parse specs conv.parseDuration argv [] with
-  | .error e => pure (obj [("error", jstr (perrJ e))])
+  | .error e => pure (obj [("error", jstr (perrJ e)), ("msg", jstr (e.message MageModel.Gen.Emit.quote))])
   | .ok (a, rest) =>
     let finals := specs.filterMap fun sp => (lastVal a sp.name).map fun v => Json.arr #[jstr sp.name, valJ v]
     pure (obj [("set", Json.arr finals.toArray), ("rest", Json.arr (rest.map jstr).toArray)])
